@@ -10,6 +10,7 @@ import sys
 from . import core
 
 REGISTRY = {
+    "C13": "statecache",
     "C14": "hashstream",
     "C19": "treemerge",
     "C20": "serialize",
